@@ -27,6 +27,12 @@ type Engine struct {
 	// Run executes one run for property prop on sim s inside the bubble.  cfg
 	// is a free-form configuration string (sub-batch selector).
 	Run func(s *Sim, prop, cfg string)
+
+	// IsolatePools, if set and true for prop, makes what sync.Pool hands out
+	// a function of the run: the pools are emptied before the run (two
+	// collections) and the collector is off while it lasts.  For engines
+	// whose outcome depends on which recycled object a pool returns.
+	IsolatePools func(prop string) (ok bool)
 }
 
 // RunReport is what one run produced.
@@ -102,6 +108,13 @@ func runOne(t *testing.T, e *Engine, prop, cfg string, tape *Tape) (s *Sim) {
 			s.Failf("harness-panic", "panic outside tasks", "%v", r)
 		}
 	}()
+
+	if e.IsolatePools != nil && e.IsolatePools(prop) {
+		runtime.GC()
+		runtime.GC()
+		old := debug.SetGCPercent(-1)
+		defer debug.SetGCPercent(old)
+	}
 
 	if e.PinCrypto {
 		cryptotest.SetGlobalRandom(t, tape.CryptoSeed)
